@@ -20,34 +20,64 @@ def claim(pid, text, note='', technique='contract-based deductive verification: 
     CLAIMS[pid] = (text, technique, ref, note)
 
 
-claim('C01', "Every try_convert under contract returns iff the class acceptance predicate (written from the documented element-wise rules) holds and "
-      "returns the specified image; Converter.convert is proved against the interface contract. Unbounded in nesting depth, container length, number of "
-      "members/fields (loop invariants / comprehension summaries, no unrolling).",
-      note="Not yet under contract: make_converter dispatch table, NestedSequenceConverter/numpy, DatetimeConverter.")
+claim('C01', "make_converter's dispatch (which converter, with which arguments, in which precedence) and every try_convert under contract are proved: "
+      "a conversion returns iff the class acceptance predicate (written from the documented element-wise rules) holds and returns the specified image; "
+      "Converter.convert / from_data are proved against the interface contract. Unbounded in nesting depth, container length, number of members/fields.",
+      note="Not under contract: NestedSequenceConverter / numpy arrays, DatetimeConverter, the scalar table rows themselves (bool has no row: see DESIGN.md findings).")
 claim('C02', "Kind gates (data_is_sequence / data_is_mapping), the scalar allowed-kinds gate and the dataclass layout gate are proved; every composite passes "
       "each element unchanged to the element converter (acceptance predicates quantify over acc(child, element)), so the embedding-context dimension collapses.")
 claim('C03', "For each converter class, try_convert (returns iff ACC) and collect_errors (None iff ACC) are proved against the SAME acceptance predicate; "
       "Converter.convert is proved never to reach its RuntimeError branch.",
       note="PaneConverter: the two construction paths are assumed to agree on __post_init__ failure (listed).")
-claim('C04', "Exceptional postconditions: only ParseInterrupt leaves a try_convert, nothing leaves a collect_errors, only ConvertError leaves convert; every "
-      "may-raise operation (lookups with unhashable keys, user callables, stdlib constructors, attribute access on foreign objects) forks a raising path "
-      "that must be caught or infeasible.")
+claim('C04', "Exceptional postconditions: only ParseInterrupt leaves a try_convert, nothing leaves a collect_errors, only ConvertError (or the type-building "
+      "TypeError / UnsupportedAnnotation, raised before data is looked at) leaves convert / from_data; every may-raise operation forks a raising path that must be caught or infeasible.",
+      note="make_converter's own exceptional clause is assumed (converter constructors, _converter protocol methods, custom handlers).")
+claim('C05', "into_data of every converter class is proved against its serialisation specification (element-wise, order preserved, Any-typed elements by runtime type "
+      "with the handlers, dataclass output layout / output names / exclusion); FieldSpec.make_field is proved to keep the output name among the input names "
+      "for the standard and alias configurations.",
+      note="The composed round-trip lemma from_data(into_data(x)) == x is NOT discharged as one obligation: it follows from ser/acc/out clauses per class plus stdlib inverse pairs (assumed). "
+           "Open finding: tuple output of a class with keyword-only fields is not accepted by tuple input.")
+claim('C06', "convert is proved to be from_data(into_data(x, None), T); into_data(x, None) keeps interchange scalars; the generated __init__ is proved to convert each "
+      "supplied argument with convert(arg, field type); converters that read their own output (Pattern, Enum) are under contract.",
+      note="Per-type fixed-point lemmas (Fraction, Decimal, datetime, paths) rest on assumed stdlib inverse pairs; Range / ValueOrList are not under contract.")
 claim('C07', "Tree-shape postconditions of every composite diagnostic pass: children keyed by exactly the rejected positions/keys, each child equal to the "
       "element converter's own tree, missing/extra exact, union children one per member in order, leaves record the offending value.")
 claim('C09', "modifies-nothing frame condition on every function under contract: a mutating operation is admitted only on a value created inside the function "
-      "(provenance check during symbolic execution); any mutation of a caller-owned object is a failing 'frame' obligation.")
-claim('C11', "UnionConverter.try_convert/collect_errors/construct proved with inductive invariants: accepts iff some member accepts, result is the image under "
-      "the left-most accepting member, diagnostic node has one child per member in declaration order.",
-      note="constructor assumed total; union flattening in make_converter not yet under contract.")
-claim('C12', "TaggedUnionConverter try_convert/collect_errors/into_data proved for the three layouts against one layout-generic specification (extract tag and "
-      "body, look the tag up, delegate to that variant only); unhashable and absent tags are rejections.",
-      note="tag-map uniqueness in __init__ not yet under contract.")
-claim('C13', "ConditionalConverter proved: accepts iff the inner type accepts and the predicate returns truthy without raising ON THE CONVERTED VALUE; value "
-      "returned unchanged; raising predicate is a failed condition with cause; into_data ignores the condition.",
-      note="stock conditions / combinators in annotations.py not yet under contract.")
-claim('C15', "PaneConverter: layout gate, struct decision table (unknown / duplicate / missing / extras allowed), tuple positional binding to the constructor "
-      "fields with length bounds, proved for both passes over a symbolic field list under the class invariant wf_Pane.",
-      note="field-name derivation (FieldSpec.make_field) and PaneConverter.__init__ (field_map construction) not yet under contract.")
+      "(provenance check during symbolic execution); any mutation of a caller-owned object is a failing 'frame' obligation; the run-time contract check "
+      "snapshots and compares the arguments of every call.")
+claim('C10', "KeyCache.__call__ (unbounded mode) proved transparent under 'equal keys mean interchangeable arguments', with a ghost history invariant and a "
+      "retention obligation (arguments behind id()-based keys stay referenced); lemma: make_converter's key identifies its arguments among live objects.",
+      note="Not decided by this technique: thread interleavings; LRU mode (unused by make_converter) is not under contract; id() uniqueness among live objects is CPython's guarantee (assumed).")
+claim('C11', "UnionConverter.try_convert/collect_errors/into_data/construct/__init__ proved with inductive invariants: accepts iff some member accepts, result is the image under "
+      "the left-most accepting member, diagnostic node has one child per member in declaration order, serialisation by the first accepting member; make_converter's union branch "
+      "threads the handlers; type-variable substitution keeps union member order (bounded).",
+      note="constructor assumed total; flatten_union_args assumed (recursive generator).")
+claim('C12', "TaggedUnionConverter __init__ (tag map injective, duplicates refused) / try_convert / collect_errors / into_data proved for the three layouts against one "
+      "layout-generic specification; Tagged._converter wiring proved.")
+claim('C13', "ConditionalConverter proved (predicate on the CONVERTED value, raising predicate = failed condition, value unchanged, into_data ignores it); stock conditions "
+      "(table obligations on the real lambdas), val_range / len_range (inclusive, absent bound unrestricted), all/any/not/&/| and the bundling of several conditions in "
+      "_annotated_converter proved via definitional summaries of the closures.",
+      note="comparisons on opaque values are total in the model; floats are not interpreted (NaN / inf behaviour of Finite rests on math.isfinite).")
+claim('C14', "Generated __init__ proved (converted or verbatim arguments, defaults, fresh factory products, set-field record exactly the supplied fields, hook called once); "
+      "from_dict_unchecked proved; the mapping and sequence data paths proved to build the instance from converted values, defaults and the exact record.",
+      note="Signature.bind is assumed (stdlib); default factories assumed not to raise; sharing/freshness of factory products is not expressible (values are abstract).")
+claim('C15', "PaneConverter: __init__ (input-name map), layout gate, struct decision table, tuple positional binding with length bounds, output layout/names/exclusion proved over "
+      "a symbolic field list; FieldSpec.make_field (derivation of input names and output name) proved.",
+      note="positional bounds computed by _process are checked by the bounded class-hierarchy contract, not symbolically.")
+claim('C16', "Generated __eq__ / _pane_ord / __hash__ proved (class modulo generic parameters + compare-fields; lexicographic order consistent with equality; hash of exactly "
+      "the hash-fields tuple); the hash rule table proved equal to the standard-library table (16 rows, exhaustive); from_dict_unchecked keeps the set-field record.",
+      note="Not under contract: __copy__/__deepcopy__/__replace__/__repr__/__setattr__; unsafe_hash cannot be passed at class creation (finding in DESIGN.md).")
+claim('C17', "Option inheritance proved (PaneOptions.replace, __init_subclass__: a passed option overrides, an absent one is inherited, incl. class handlers); field merge over the MRO, "
+      "override in place, keyword-only reordering, signature order, type-variable substitution and enforcement are decided by BOUNDED run-time contracts over a pool of class hierarchies.",
+      note="bounded part never counted as proved; typing.Generic bookkeeping is outside the engine (one open finding: explicit Generic[V] next to a generic base).")
+claim('C18', "Precedence proved on make_converter (special forms, call-level then class-local handlers, HasConverter, scalar table, registered global handlers, structural built-ins; "
+      "a deferring handler is skipped), handler normalisation (_process: mapping form matches only the exact unparameterised type), PaneConverter.__init__ (own class handlers before "
+      "enclosing ones, field converter first), handler threading through every composite constructor and every into_data.")
+claim('C20', "BOUNDED: canonical spelling, idempotence, reversibility and refusal clauses of rename_field evaluated at run time on every name of 1-3 words over a 4-word "
+      "vocabulary x 5 styles, and on names with leading/trailing/doubled separators.",
+      technique='run-time evaluation of sidecar contracts on the real function over an exhaustively enumerated finite domain (bounded stand-in; strings are outside the symbolic engine)')
+
+LEVELS = {'C20': 'exploration'}
 
 
 def main():
@@ -64,7 +94,7 @@ def main():
                 'evidence_file': f'/verif/evidence/{pid}.json',
                 'replay_cmd_template': 'python3-vt check.py --replay {path}',
                 'engine': 'pvc',
-                'level_claimed': {'category': 'proof', 'text': text, 'design_ref': ref},
+                'level_claimed': {'category': LEVELS.get(pid, 'proof'), 'text': text, 'design_ref': ref},
                 'level_note': TRUST + (' ' + note if note else ''),
                 'technique': tech,
             })
@@ -84,6 +114,7 @@ def main():
         'notes': 'See DESIGN.md. exit codes: 0 held / 1 VIOLATION / 2 undecided / 3 checker error.',
     }
     json.dump(m, open(os.path.join(HERE, 'MANIFEST.json'), 'w'), indent=1)
+    json.dump(LEVELS, open(os.path.join(HERE, 'levels.json'), 'w'), indent=1)
     print('claimed', sorted(CLAIMS), 'not claimed', [x['property_id'] for x in na])
 
 
